@@ -463,6 +463,7 @@ class FnTr:
         n = self.node
         f = self.fn
         f.qual = self.tu.qualname(n)
+        f.node = n
         f.lean = self.T.lean_name(n)
         loc = n.get("loc", {})
         f.loc = "line %s" % (loc.get("line") or loc.get("spellingLoc", {}).get("line") or "?")
@@ -712,6 +713,11 @@ class FnTr:
             d = self.tu.decl(m["referencedDecl"]["id"])
             if d["kind"] == "EnumConstantDecl":
                 return self.enum_value(d)
+            if d["kind"] == "VarDecl" and (d.get("constexpr") or "const" in d.get("type", {}).get("qualType", "")):
+                for cand in self.tu.nodes.get(m["referencedDecl"]["id"], []):
+                    init = [c for c in cand.get("inner", []) if c.get("kind") not in ("FullComment",)]
+                    if init:
+                        return self.const_int_deep(init[0])
         raise Untranslatable("not a constant")
 
     def enum_value(self, d):
@@ -739,6 +745,13 @@ class FnTr:
             d = self.tu.decl(m["referencedDecl"]["id"])
             if d["kind"] == "EnumConstantDecl":
                 return self.enum_value(d)
+            if d["kind"] == "VarDecl" and (d.get("constexpr") or "const" in d.get("type", {}).get("qualType", "")):
+                for cand in self.tu.nodes.get(m["referencedDecl"]["id"], []):
+                    init = [c for c in cand.get("inner", []) if c.get("kind") not in ("FullComment",)]
+                    if init:
+                        return self.const_int_deep(init[0])
+        if m.get("kind") == "UnaryExprOrTypeTraitExpr":
+            return self.sizeof_expr(m)
         if m.get("kind") == "BinaryOperator":
             a, b = self.const_int_deep(m["inner"][0]), self.const_int_deep(m["inner"][1])
             return {"|": a | b, "&": a & b, "+": a + b, "-": a - b, "<<": a << b, ">>": a >> b, "*": a * b}[m["opcode"]]
